@@ -124,6 +124,8 @@ def clock_events(ctx):
 
 
 def check(ctx):
+    from ..lib import discarded_results
+    ctx.sub(discarded_results, 'C12.S2', ('qstrader/simulation/',), 'the clock emits the events the code actually ordered')
     M = ctx.M
     from ..lib import one_shot_state
     ctx.sub(one_shot_state, 'C12.S1', CLS)          # the clock can be iterated again (same events every time)
